@@ -655,6 +655,10 @@ def judge1(prog, obs):
         node_problems(f.node, fi, f"function {f.name}", probs)
     if probs:
         return ("node-invalid-at-import", probs[0])
+    # custom-domain nodes (no runtime implements them; their meaning in the generated programs is the
+    # identity) are written as Identity for the checker's shape inference (onnx 1.22 crashes when an
+    # ai.onnx.ml node is fed by a value it cannot type) and for the runtime
+    model = L.strip_custom(model)
     try:
         onnx.checker.check_model(model, full_check=True)
     except Exception as e:  # noqa: BLE001
@@ -714,6 +718,11 @@ def classify(stage, prog, msg=""):
     if stage in ("build-raises-InferenceError", "construct-raises-InferenceError") and "expect a" in msg \
             and "ref-attr-converted" in feats and feats <= (body_family | {"ref-attr-converted", "inline-converted"}):
         return "adapt:ref-attribute-in-function-body:build-fails"
+    if stage == "build-raises-BuildError" and "initializers" in msg and "inline-converted" in set(L.features(prog)):
+        return "adapt-inline:converter-initializers:build-fails"
+    if bad_attr and "inline-ml-node-form-rejected" in feats and feats <= (body_family | {"inline-ml-node-form-rejected", "inline-below-14-target-14"}) \
+            and "LabelEncoder" in msg:
+        return "adapt-inline:ml-node-form-rejected:build-fails"
     if bad_attr and feats == {"inline-below-14-target-14"}:
         return "adapt-inline:source-below-14:not-converted"
     return f"{stage}:{'+'.join(sorted(feats)) or 'plain'}"
@@ -838,7 +847,8 @@ def witness_programs():
     out = []
     for name in ("C09-body-own-opsets.json", "C09-unknown-rank.json", "C09-duplicate-fresh-name.json",
                  "C09-inline-below-14.json", "C09-fresh-name-main-and-body.json",
-                 "C09-inline-in-body.json", "C09-ref-attribute.json"):
+                 "C09-inline-in-body.json", "C09-ref-attribute.json", "C09-inline-initializers.json",
+                 "C09-inline-ml-labelencoder1.json"):
         p = FINDINGS_DIR / name
         if p.exists():
             out.append((name, json.loads(p.read_text())["case"]["prog"]))
@@ -872,6 +882,8 @@ def gen_programs(ck):
             p2["outs"] = outs2
             L.align_unknown_rank(p2)
             progs.append(("history", p2))
+    for i in range(ck.pick(150, 2500)):
+        progs.append(("inline-mix", L.inline_mix_program(rng, i)))
     return progs
 
 
@@ -978,6 +990,45 @@ def targeted_programs():
     P.append({"nodes": [{"id": "f", "op": "func", "name": "fmix", "params": ["p"], "args": ["x"],
                          "body": {"nodes": [st("q", "rmean", 17, ["p"], axis=0), st("r", "rmax", 18, ["q"], axis=1)], "out": "r"}},
                         st("g", "rl2", 17, ["f"], axis=1)], "outs": ["g"]})
+    # legacy models that need real conversion AND use ai.onnx.ml / a custom domain, the domain requested at
+    # another version elsewhere: top level, an If body, a function body, another legacy model
+    def inl(i, arg, body, opset, **kw):
+        return {"id": i, "op": "inline", "model": dict({"kind": "oldx", "body": body, "opset": opset}, **kw), "args": [arg]}
+
+    def lab(i, arg, mv, dv=17):
+        return {"id": i, "op": "ml_label", "mv": mv, "dv": dv, "args": [arg]}
+
+    P.append({"nodes": [inl("a", "x", "pad_attr", 10)], "outs": ["a"]})
+    P.append({"nodes": [inl("a", "x", "pad_attr", 10, ml=["afe", 1]), st("b", "rmin", 18, ["a"], axis=1)], "outs": ["b"]})
+    P.append({"nodes": [inl("a", "x", "topk_attr", 9, custom=1), st("b", "identity", 21, ["a"])], "outs": ["b"]})
+    for k, (body, opset) in enumerate((("softmax3", 11), ("logsoftmax3", 12), ("unsq_sq_relu", 9), ("rsum_attr", 12),
+                                       ("rmean_attr", 13), ("rmax_attr", 17), ("split_attr", 11), ("clip_attr", 10),
+                                       ("dropout_ratio", 11))):
+        mlk, mlv = (("scaler", 1), ("le2", 2), ("norm", 3), ("afe", 2), ("binarizer", 1))[k % 5]
+        top = (("identity", 21), ("isnan_w", 20), ("identity", 19), ("pad", 18))[k % 4]
+        hi = 3 + k % 3
+        # (a) requested at the top level
+        P.append({"nodes": [inl("a", "x", body, opset, ml=[mlk, mlv]), lab("m", "y", hi), st("t", top[0], top[1], ["a"]),
+                            st("d", "add", 17, ["t", "m"])], "outs": ["d"]})
+        # (b) inside an If body
+        P.append({"nodes": [inl("a", "x", body, opset, ml=[mlk, mlv], pos="before"),
+                            {"id": "i", "op": "if", "mv": 17, "cond": "c",
+                             "then": {"nodes": [lab("m", "y", hi)], "out": "m"},
+                             "else": {"nodes": [st("e", top[0], top[1], ["y"])], "out": "e"}},
+                            st("d", "sub", 17, ["a", "i"])], "outs": ["d"]})
+        # (c) inside a function body
+        P.append({"nodes": [inl("a", "x", body, opset, ml=[mlk, mlv], custom=2),
+                            {"id": "f", "op": "func", "name": f"fmlx{k}", "params": ["p"], "args": ["y"],
+                             "body": {"nodes": [lab("m", "p", hi)], "out": "m"}},
+                            st("t", top[0], top[1], ["f"]), st("d", "add", 17, ["a", "t"])], "outs": ["d", "f"]})
+        # (d) another legacy model: ml and the custom domain at other versions; the legacy model inside a body
+        P.append({"nodes": [inl("a", "x", body, opset, ml=[mlk, mlv], custom=1),
+                            inl("b", "a", "rmean_attr", 17, ml=["le2", 2 + (mlv == 2)], custom=3),
+                            st("t", top[0], top[1], ["b"])], "outs": ["t"]})
+        P.append({"nodes": [{"id": "i", "op": "if", "mv": 17, "cond": "nc",
+                             "then": {"nodes": [inl("a", "x", body, opset, ml=[mlk, mlv])], "out": "a"},
+                             "else": {"nodes": [st("e", "neg", 17, ["x"])], "out": "e"}},
+                            lab("m", "y", hi), st("t", top[0], top[1], ["m"]), st("d", "add", 17, ["i", "t"])], "outs": ["d"]})
     # v17 If in a v21 model (kept although its schema changed)
     P.append({"nodes": [{"id": "i", "op": "if", "mv": 17, "cond": "nc",
                          "then": {"nodes": [st("t", "identity", 21, ["x"])], "out": "t"},
